@@ -43,7 +43,7 @@ def run(ctx, replay=None):
     quick = ctx.tier == 'quick'
     exhaustive = ['g', 'q'] if quick else ['g', 'q', 't']
     graph_cfgs = ['g'] if quick else ['g', 'q']
-    sim_cfgs = [('t', 150, 40)] if quick else [('t', 2500, 60)]
+    sim_cfgs = [('t', 150, 40)] if quick else [('t', 1500, 60)]
     all_traces = []
     for name in exhaustive:
         dump = name in graph_cfgs
@@ -60,10 +60,14 @@ def run(ctx, replay=None):
         if dump and r.scratch:
             g = tlc.parse_dot(os.path.join(r.scratch, 'graph.dot'), drop_vars=DROP)
             only = None
+            max_paths = None
             if name != 'g':
-                # the refused requests of the larger graph are the same code path as in g: cover everything else
-                only = lambda e: not (e[1] == 'Request' and e[2][4] == 'regress')  # noqa: E731
-            paths, cov, want = tlc.edge_cover_paths(g, ctx.rng, max_len=60, only=only)
+                # larger graph: the refused and the plain successful requests are the code paths already covered edge by
+                # edge in g; here cover the crash / failing-write / reload / repeated-request transitions, within a budget
+                only = lambda e: (e[1] in ('Crash', 'Reload') or (e[1] == 'Request' and e[2][4] == 'same') or  # noqa: E731
+                                  (e[1] in ('WriteBak', 'WriteNew', 'Rename', 'Return') and e[2][0] != 'ok'))
+                max_paths = 9000
+            paths, cov, want = tlc.edge_cover_paths(g, ctx.rng, max_len=60, only=only, max_paths=max_paths)
             ctx.log('graph %s: %d states %d edges -> %d paths covering %d/%d edges' % (name, len(g.states), len(g.edges), len(paths), cov, want))
             ctx.cov['graph_edges_covered'] = ctx.cov.get('graph_edges_covered', 0) + cov
             ctx.cov['graph_edges_total'] = ctx.cov.get('graph_edges_total', 0) + want
